@@ -5,6 +5,7 @@ import (
 	"errors"
 	"fmt"
 	"io"
+	"io/fs"
 	"math"
 	"reflect"
 	"sort"
@@ -214,11 +215,26 @@ type failReader struct {
 	data []byte
 	n    int
 	pos  int
+	kind string // which error the failure is: plain, wrapeof, patheof, unexpected, closed
+}
+
+func (r *failReader) failure() error {
+	switch r.kind {
+	case "wrapeof":
+		return fmt.Errorf("fetching template body: %w", io.EOF) // a real failure that merely wraps io.EOF
+	case "patheof":
+		return &fs.PathError{Op: "read", Path: "template", Err: io.EOF}
+	case "unexpected":
+		return io.ErrUnexpectedEOF
+	case "closed":
+		return io.ErrClosedPipe
+	}
+	return errors.New("injected read failure")
 }
 
 func (r *failReader) Read(p []byte) (int, error) {
 	if r.pos >= r.n {
-		return 0, errors.New("injected read failure")
+		return 0, r.failure()
 	}
 	k := copy(p, r.data[r.pos:r.n])
 	if k > 1 {
@@ -318,11 +334,16 @@ func opX3(level, tag, vec, mode, tmpl string) string {
 	case mode == "nilreader":
 		lib = resTag(ex.ExportWith(nil))
 	case strings.HasPrefix(mode, "fail:"):
-		n, _ := strconv.Atoi(mode[5:])
+		parts := strings.Split(mode, ":") // fail:<bytes delivered before the failure>[:<kind of error>]
+		n, _ := strconv.Atoi(parts[1])
 		if n > len(tmpl) {
 			n = len(tmpl)
 		}
-		lib = resTag(ex.ExportWith(&failReader{data: []byte(tmpl), n: n}))
+		kind := "plain"
+		if len(parts) > 2 {
+			kind = parts[2]
+		}
+		lib = resTag(ex.ExportWith(&failReader{data: []byte(tmpl), n: n, kind: kind}))
 	default:
 		return "bad-mode"
 	}
